@@ -6,7 +6,7 @@
    Naming: `_partial` = proved under the stated hypothesis, the full statement is in the comment and
    is refuted by the `_refuted` / `_deviates` theorem that follows. *)
 From Coq Require Import ZArith List Bool.
-From GV Require Import model.Arith model.Decimal model.NumFn proofs.NumFnProofs.
+From GV Require Import model.Arith model.Decimal model.NumFn proofs.NumFnProofs gen.TablesNumfn.
 Import ListNotations.
 Open Scope Z_scope.
 
@@ -238,3 +238,42 @@ Theorem C05num_cmp_spec_reflects : forall a b,
   (spec_cmp CNe a b = true <-> a <> b) /\ (spec_cmp CGe a b = true <-> a >= b) /\ (spec_cmp CGt a b = true <-> a > b).
 Proof. exact spec_cmp_reflects. Qed.
 Print Assumptions C05num_cmp_spec_reflects.
+
+(* ---- 9. the repaired variants (model/NumFn.v impl_*_c: checked operations, an unrepresentable result is an
+   error, an over-long right shift keeps the sign): the full statements hold, for every width and every input *)
+Theorem C05num_gcd_repaired_correct : forall w a b, 0 < w -> in_range Signed w a = true -> in_range Signed w b = true ->
+  impl_gcd_c w a b = Some (spec_gcd w a b).
+Proof. exact gcd_c_correct. Qed.
+Print Assumptions C05num_gcd_repaired_correct.
+
+Theorem C05num_lcm_repaired_correct : forall w a b, 0 < w -> in_range Signed w a = true -> in_range Signed w b = true ->
+  impl_lcm_c w a b = Some (spec_lcm w a b).
+Proof. exact lcm_c_correct. Qed.
+Print Assumptions C05num_lcm_repaired_correct.
+
+Theorem C05num_factorial_repaired_correct : forall n, impl_factorial_c n = Some (spec_factorial n).
+Proof. exact factorial_c_correct. Qed.
+Print Assumptions C05num_factorial_repaired_correct.
+
+Theorem C05num_shr_repaired_correct : forall sg w a b, 0 < w <= 2 ^ 31 -> in_range Signed 32 b = true ->
+  in_range sg w a = true -> impl_shr_c sg w a b = spec_shr sg w a b.
+Proof. exact shr_c_correct. Qed.
+Print Assumptions C05num_shr_repaired_correct.
+
+Theorem C05num_round_repaired_never_panics : forall kd p s n v, impl_round_c kd p s n v <> Panic.
+Proof. exact round_c_never_panics. Qed.
+Print Assumptions C05num_round_repaired_never_panics.
+
+Theorem C05num_round_repaired_correct_partial : forall kd p s n v, 0 <= p <= maxp kd -> -128 <= s ->
+  in_range Signed 8 n = true -> s - Z.min n s <= maxp kd -> Z.abs v < 10 ^ p ->
+  impl_round_c kd p s n v = spec_round p s n v.
+Proof. exact round_c_correct_partial. Qed.
+Print Assumptions C05num_round_repaired_correct_partial.
+
+(* the source has, for each of the five files, one of the two transcribed variants (vlib/tables_numfn.py);
+   the driver compares the engine with that one *)
+Theorem C05num_src_variants_known : exists g l f s r,
+  gcd_native = Some g /\ lcm_native = Some l /\ factorial_null = Some f /\ shr_zero_fill = Some s /\
+  d2d_scale_sub_native = Some r /\ In g [0; 1] /\ In l [0; 1] /\ In f [0; 1] /\ In s [0; 1] /\ In r [0; 1].
+Proof. exact src_variants_known. Qed.
+Print Assumptions C05num_src_variants_known.
